@@ -22,16 +22,24 @@ def find_list(ctx):
             continue
         fs = a["variants"][0]["fields"]
         tys = sorted(f["ty"] for f in fs)
-        if len(fs) == 2 and any(t.endswith("[u8]") and t.startswith("&") for t in tys) and any(boolish(ctx, x) for x in tys):
+        slice_like = any(t.endswith("[u8]") and t.startswith("&") for t in tys) and any(boolish(ctx, x) for x in tys)
+        if (len(fs) == 2 and slice_like) or (len(fs) == 3 and slice_like and "usize" in tys):
             nx = impl_fn(ctx, "std::iter::Iterator", a["path"], "next")
             if nx:
                 cands.append((a, nx[0]))
     if len(cands) != 1:
-        raise FailClosed("entity-tag list iterator (struct {&[u8], bool} implementing Iterator) not found uniquely")
+        raise FailClosed("entity-tag list iterator (struct {&[u8], bool} or {&[u8], usize, bool} implementing Iterator) not found uniquely")
     a, nx = cands[0]
     rem = [f["name"] for f in a["variants"][0]["fields"] if f["ty"].endswith("[u8]")][0]
     flag = [f["name"] for f in a["variants"][0]["fields"] if boolish(ctx, f["ty"])][0]
     return a["path"], nx, rem, flag
+
+
+def cursor_field(ctx, adt):
+    """name of the usize cursor field when the list keeps (whole input, position) instead of a shrinking slice"""
+    fs = ctx.facts.adts[adt]["variants"][0]["fields"]
+    pos = [f["name"] for f in fs if f["ty"] == "usize"]
+    return pos[0] if len(fs) == 3 and len(pos) == 1 else None
 
 
 def closure_needle(ctx, clo):
@@ -55,6 +63,9 @@ def closure_needle(ctx, clo):
 
 def tokeniser(ctx, rule):
     adt, nx, remf, flagf = find_list(ctx)
+    posf = cursor_field(ctx, adt)
+    if posf is not None:
+        return tokeniser_cursor(ctx, rule, adt, nx, remf, posf, flagf)
     from .common import helper_inline
     outs = ctx.px(nx, inline=helper_inline(ctx, own=(adt,)), key="helpers")
     SELF = ("H", ("param", 1))
@@ -177,6 +188,195 @@ def tokeniser(ctx, rule):
     ctx.floor(rule + ".skip", nskip, 2, what="whitespace-skip rows")
 
 
+def tokeniser_cursor(ctx, rule, adt, nx, inputf, posf, flagf):
+    """the same tokeniser rules for the representation (whole input, cursor): the unread text is input[pos..]; an element is
+    input[pos .. pos+k+p+1] for the prefix length k and the position p of the first 0x22 after the prefix; then one `,`
+    directly after it is stepped over and SP / HTAB bytes are skipped one at a time; object invariant pos <= len(input)"""
+    from .common import helper_inline
+    from ..zone import Zone, same_sum
+    from ..models import len_term
+    SELF = ("H", ("param", 1))
+    S0 = ("deref", ("param", 1))
+    INPUT = ("deref", ("field", S0, inputf))
+    POS = ("field", S0, posf)
+    LEN = len_term(INPUT)
+    TY.setdefault(POS, (64, False))
+    TY.setdefault(LEN, (64, False))
+    fl0 = ("field", S0, flagf)
+
+    def setup(st, px):
+        st.cons.rel.append(("Le", POS, LEN))          # object invariant (established by the constructor, preserved below)
+
+    def loop_assume(px, st, fr, header):
+        # loop invariant of the skip loop: the cursor stays within the input
+        for (f2, h2, key), init in list(st.extra.get("loop_entry_values", {}).items())[-8:]:
+            pass
+        if fr.fid == 0:
+            for key, v in list(st.env.items()):
+                if key[0] == "L" and key[1] == 0 and isinstance(v, tuple) and v and v[0] == "loopvar" and v[2] == header and TY.get(v, (0,))[0] == 64:
+                    st.cons.rel.append(("Le", v, LEN))
+    outs = ctx.px(nx, inline=helper_inline(ctx, own=(adt,)), setup=setup, loop_assume=loop_assume, key="cursor")
+    sites = CEN.census(ctx, outs)
+    for key, s in sorted(sites.items()):
+        if s.failed:
+            ctx.violation(rule, "%s|site|%s" % (rule, key), "tokeniser: %s (%s)" % (s.failed[0][0], s.failed[0][1][:100]), where=F.loc(s.span))
+        else:
+            ctx.ok(rule, "site %s" % key, detail=sorted(s.how), where=F.loc(s.span))
+
+    def zone(o, *terms):
+        cc = P.Cons()
+        cc.rel = list(o.cons.rel)
+        return Zone(cc, extra_terms=tuple(x for x in terms if x is not None) + (POS, LEN))
+
+    def byte_at(o, at):
+        """what the path knows about input[at]: ("eq", c) / ("notin", set) / ("oob",) / None"""
+        for tt, val in o.cons.known.items():
+            if isinstance(tt, tuple) and tt[0] == "deref" and isinstance(tt[1], tuple) and tt[1][0] == "elem" and tt[1][1] == INPUT:
+                if same_sum(tt[1][2], at) or zone(o, tt[1][2], at).entails("Eq", tt[1][2], at):
+                    return ("eq", val)
+        for tt, vals in o.cons.notin.items():
+            if isinstance(tt, tuple) and tt[0] == "deref" and isinstance(tt[1], tuple) and tt[1][0] == "elem" and tt[1][1] == INPUT:
+                if same_sum(tt[1][2], at) or zone(o, tt[1][2], at).entails("Eq", tt[1][2], at):
+                    return ("notin", set(vals))
+        if zone(o, at).entails("Le", LEN, at):
+            return ("oob",)
+        for op_, a_, b_ in o.cons.rel:
+            if op_ == "Le" and a_ == LEN and same_sum(b_, at):
+                return ("oob",)
+        return None
+    nsome = nnone = nskip = 0
+    for o in outs:
+        if o.kind == "backedge":
+            # the skip loop: one SP / HTAB at the cursor, cursor + 1
+            nskip += 1
+            lvs = [v for k_, v in o.state.extra.get("loop_entry_values", {}).items() if False]
+            fn_, header = o.where
+            curs = [(k3, init) for (f2, h2, k3), init in [(k_, v_) for k_, v_ in o.state.extra.get("loop_entry_values", {}).items() if len(k_) == 3]
+                    if f2 == fn_ and h2 == header and k3[0] == "L" and ctx.facts.bodies[fn_]["locals"][k3[1]]["s"] == "usize" and not k3[2]]
+            okk = False
+            for k3, init in curs:
+                lv = ("loopvar", fn_, header, k3, 0)
+                b = byte_at(o, lv)
+                new = o.state.env.get(("L", o.state.frames[-1].fid, k3[1]))
+                if b and b[0] == "eq" and b[1] in (32, 9) and new == mk_binop("Add", lv, const(1)):
+                    okk = True
+            if okk:
+                ctx.ok(rule, "skip-loop row: SP / HTAB at the cursor, cursor + 1")
+            else:
+                ctx.violation(rule, rule + "|skip-bytes", "the whitespace loop does not advance the cursor by one over exactly SP (32) / HTAB (9)", where=_w2(o))
+            continue
+        if o.kind != "return":
+            continue
+        v = o.value
+        pos2 = final_read(ctx, o, SELF, (("f", posf),))
+        fl2 = final_read(ctx, o, SELF, (("f", flagf),))
+        in2 = final_read(ctx, o, SELF, (("f", inputf),))
+        var = v[3] if is_agg(v) else None
+        z = zone(o, pos2)
+        if not z.feasible():
+            continue
+        bad = []
+        if canon_slice(in2)[0] != INPUT and in2 != ("field", S0, inputf):
+            bad.append("the input field is reassigned")
+        if not z.entails("Le", pos2, LEN):
+            bad.append("the cursor may leave the input (pos' = %s <= len not implied)" % short(pos2, 60))
+        prefix = None
+        for tt, val in o.cons.known.items():
+            if isinstance(tt, tuple) and tt[0] == "call" and tt[1].endswith("::starts_with") and val == 1:
+                hay, lit = tt[2][0], tt[2][1]
+                while isinstance(hay, tuple) and hay and hay[0] in ("&", "slice_of"):
+                    hay = hay[1]
+                while isinstance(lit, tuple) and lit and lit[0] == "&":
+                    lit = lit[1]
+                if hay == ("slice", INPUT, POS, None) and isinstance(lit, tuple) and lit[0] in ("bytes", "str"):
+                    prefix = lit[1]
+        if prefix is None:
+            s_ = ""
+            while True:
+                b = byte_at(o, mk_binop("Add", POS, const(len(s_))))
+                if b and b[0] == "eq" and isinstance(b[1], int):
+                    s_ += chr(b[1])
+                else:
+                    break
+            prefix = s_ or None
+        found = None
+        for e in o.events:
+            if e["k"] == "call" and isinstance(e.get("result"), tuple) and e["result"][0] == "found":
+                found = e
+        if var == "Some":
+            nsome += 1
+            if prefix not in ('"', 'W/"'):
+                bad.append("an element is produced without a leading `\"` or `W/\"` at the cursor (prefix %r)" % prefix)
+            k = len(prefix or "")
+            if found is None:
+                bad.append("no search for the closing quote")
+            else:
+                if closure_needle(ctx, found["result"][2]) != 34 and found["result"][2] != const(34):
+                    bad.append("the element end is not searched with the closing quote 0x22")
+                hay = found["result"][1]
+                if hay != ("slice", INPUT, mk_binop("Add", POS, const(k)), None):
+                    bad.append("the closing quote is searched in %s, not in the input after the cursor + %d-byte prefix" % (short(hay, 60), k))
+                p_ = ("payload", found["result"], "Some", "0")
+                TY.setdefault(p_, (64, False))
+                E = mk_binop("Add", mk_binop("Add", POS, p_), const(k + 1))
+                item = agg_get(v, "0")
+                iv = canon_slice(item)[0] if canon_slice(item)[1] == () else None
+                zz = zone(o, E, pos2)
+                if not (isinstance(iv, tuple) and iv[0] == "slice" and iv[1] == INPUT and iv[3] is not None and zz.entails("Eq", iv[2], POS) and
+                        (same_sum(iv[3], E) or Zone(zz.cons, extra_terms=(iv[3], E)).entails("Eq", iv[3], E))):
+                    bad.append("the element is %s, not input[pos .. pos+prefix+position+1]" % short(iv, 80))
+                after = byte_at(o, E)
+                if after and after[0] == "eq" and after[1] == 44:
+                    # one comma consumed, then SP / HTAB skipped: the final cursor is E+1 or the loop variable that started there
+                    okp = same_sum(pos2, mk_binop("Add", E, const(1))) or Zone(zz.cons, extra_terms=(pos2, E)).entails("Eq", pos2, mk_binop("Add", E, const(1)))
+                    if not okp and isinstance(pos2, tuple) and pos2[0] == "loopvar":
+                        lev = o.state.extra.get("loop_entry_values", {})
+                        entry = lev.get((pos2[1], pos2[2], pos2[3]))
+                        okp = entry is not None and (same_sum(entry, mk_binop("Add", E, const(1))) or
+                                                     Zone(zz.cons, extra_terms=(entry, E)).entails("Eq", entry, mk_binop("Add", E, const(1))))
+                        stop = byte_at(o, pos2)
+                        if okp and not (stop and (stop[0] == "oob" or (stop[0] == "notin" and {32, 9} <= stop[1]) or (stop[0] == "eq" and stop[1] not in (32, 9)))):
+                            bad.append("the whitespace skip stops although the byte at the cursor may be SP / HTAB")
+                    if not okp:
+                        bad.append("after `,` the cursor is %s (expected just past the comma, then past SP / HTAB)" % short(pos2, 60))
+                elif after and (after[0] == "oob" or (after[0] == "notin" and 44 in after[1]) or (after[0] == "eq" and after[1] != 44)):
+                    if not (same_sum(pos2, E) or Zone(zz.cons, extra_terms=(pos2, E)).entails("Eq", pos2, E)):
+                        bad.append("without a `,` right after the closing quote the cursor must stop right after the element; it is %s" % short(pos2, 60))
+                else:
+                    bad.append("the byte after the closing quote is not examined")
+            if fl2 != fl0:
+                bad.append("the malformed flag changes on a well-formed element")
+            if bad:
+                ctx.violation(rule, "%s|elem|%s" % (rule, bad[0][:50]), "tokeniser: " + "; ".join(bad), where=_w2(o))
+            else:
+                ctx.ok(rule, "element row (prefix %r)" % prefix)
+        elif var == "None":
+            nnone += 1
+            if z.entails("Eq", POS, LEN):
+                if fl2 != fl0 or bad:
+                    ctx.violation(rule, rule + "|empty-sets-flag", "an exhausted list sets the malformed flag%s" % ("; " + "; ".join(bad) if bad else ""))
+                else:
+                    ctx.ok(rule, "end-of-list row")
+            elif fl2 != const(1):
+                ctx.violation(rule, rule + "|malformed-not-flagged", "a malformed list (prefix %r, closing quote %s) ends the iteration without setting the malformed flag" %
+                              (prefix, "missing" if found is not None else "n/a"))
+            elif bad:
+                ctx.violation(rule, "%s|none|%s" % (rule, bad[0][:40]), "tokeniser: " + "; ".join(bad), where=_w2(o))
+            else:
+                ctx.ok(rule, "malformed row sets the flag (prefix %r)" % prefix)
+    ctx.floor(rule, nsome, 4, what="element rows")
+    ctx.floor(rule + ".none", nnone, 3, what="None rows (end, no prefix, no closing quote)")
+    ctx.floor(rule + ".skip", nskip, 2, what="whitespace-skip rows")
+    ctx.assume("object invariant of the tag-list cursor: pos <= len(input) (0 at construction; preserved on every row, checked)")
+
+
+def _w2(o):
+    for e in reversed(o.events):
+        if "span" in e:
+            return F.loc(e["span"])
+    return None
+
+
 def canon_slice(t):
     """(sequence value, projection path) a slice reference denotes"""
     if isinstance(t, tuple) and t and t[0] == "ref" and t[1][0] == "H":
@@ -220,6 +420,9 @@ def list_constructor(ctx, rule):
                 bad.append("the malformed flag starts as %s" % short(fl, 20))
             if canon_slice(rm)[0] not in (("param", 1), ("deref", ("param", 1))) or canon_slice(rm)[1] != ():
                 bad.append("the remainder starts as %s, not the header value given" % short(rm, 40))
+            posf = cursor_field(ctx, adt)
+            if posf is not None and agg_get(o.value, posf) != const(0):
+                bad.append("the cursor starts at %s, not 0" % short(agg_get(o.value, posf), 20))
             if bad:
                 ctx.violation(rule, "%s|ctor|%s" % (rule, bad[0][:30]), "tag-list iterator constructed in %s: %s" % (b["name"], "; ".join(bad)), where=F.loc(st["span"]))
             else:
